@@ -368,3 +368,8 @@ func (cs *ContractSet) isPure(name string) bool {
 	}
 	return false
 }
+
+// sweepOnly: the contract has nothing a caller could use or must establish.
+func (c *Contract) sweepOnly() bool {
+	return len(c.Requires) == 0 && len(c.Ensures) == 0 && !c.HasMod && len(c.GhostSets) == 0 && !c.NoPaths && !c.Inline && !c.Extern
+}
